@@ -35,6 +35,8 @@ func main() {
 			Check: pmlib.CheckPublishers(true), QuickBound: 1, ThoroughBound: 2, Horizon: 20000, Bg: bg,
 		},
 	}
+	scn = append(scn, &vexplore.Scenario{Name: "stream-level-replace", Desc: "stream level (SubStream.WriteUnit stale-substream guard): always-available stream, publisher A (2 writes) replaced by B (1 write) concurrently, reader attached",
+		Body: pmlib.ReplaceBody, Check: pmlib.CheckReplace, QuickBound: 2, ThoroughBound: 3, Horizon: 8000, Bg: bg})
 	vexplore.Main("C16", scn, []string{
 		"publishers/readers are fake sessions calling the real pathManager API with the call shapes of the protocol servers",
 		"scenario always-available-override covers the stale-substream guard of SubStream.WriteUnit (one stream object outliving its publishers); its offline sub stream timers are background",
